@@ -58,3 +58,7 @@ def pdom_notify(ctx, prog):
 pdom_notify.rule_id = "C16.PDOM-notify"
 
 RULES = [rewire, weak_prev_nodes, link_callback, sched, pdom_notify]
+
+# control signature of the bookkeeping effects this property depends on (rules/ctrlsig.py)
+from .ctrlsig import make_rule as _ctrl_rule  # noqa: E402
+RULES.append(_ctrl_rule("C16"))
